@@ -674,6 +674,50 @@ def check(ctx):
 
 
     _monitor_record(ctx)
+    _waited_map(ctx)
+
+
+def _waited_map(ctx):
+    """C20.1: the statements between a granted create request and the charge
+    of its tokens look the instance up in the map of waiting monitors; an
+    error there is swallowed by the catch-all of the evaluation and the
+    request is never charged.  The map handed to the first evaluation is
+    therefore a mapping on every path: the stored value or an empty dict
+    (`X or {}`), also when the node exists but holds nothing."""
+    mod = ctx.index.module(MON)
+    run = mod.functions.get('_run_sync')
+    ctx.require(run is not None, 'appmonitor._run_sync', rule='C20.1')
+    calls = [c for c in K.calls(run.node)
+             if isinstance(c.func, ast.Name) and c.func.id == 'reevaluate'
+             and len(c.args) >= 5 and isinstance(c.args[4], ast.Name)]
+    ctx.require(calls, 'the evaluation call of _run_sync', rule='C20.1',
+                func=run)
+    name = calls[0].args[4].id
+
+    def mapping(expr, depth=0):
+        if isinstance(expr, ast.Dict):
+            return True
+        if isinstance(expr, ast.BoolOp) and isinstance(expr.op, ast.Or):
+            return mapping(expr.values[-1], depth)
+        if isinstance(expr, ast.Call) and depth < 2:
+            if isinstance(expr.func, ast.Name) and \
+                    expr.func.id == 'reevaluate':
+                return True         # the map the last evaluation returned
+            callee = ctx.index.resolve_call(run, expr)
+            if callee is not None:
+                whole = K.expr_of_function(callee.raw)
+                return whole is not None and mapping(whole, depth + 1)
+        return False
+    defs = [sub for sub in K.walk_no_nested(run.node)
+            if isinstance(sub, ast.Assign) and len(sub.targets) == 1 and
+            N.txt(sub.targets[0]) == name]
+    ctx.require(defs, 'definition of the waited map in _run_sync',
+                rule='C20.1', func=run)
+    for sub in defs:
+        ctx.ob('C20.1', run, sub, mapping(sub.value),
+               'the map of waiting monitors is a mapping on every path '
+               '(%s)' % N.txt(sub.value)[:70],
+               construct='waited map is never None')
 
 
 def _monitor_record(ctx):
